@@ -28,7 +28,9 @@ META = {
                   "event AND, disabled and marker filters inert - the semantics of match_filters); a query is required "
                   "to be complete only when created on a completely parsed file (a query created during parsing ends when a "
                   "loop iteration sees no new message); on the big uniform log (70 000 messages, windows larger than 64 Ki) "
-                  "only frame summaries are checked: the frames tile the window exactly, in order, each position once and its window is changed only while the session is paused; searches "
+                  "(periodic ecu/apid/ctid, filter sets of every shape, binary and text) and for text streams frame summaries are "
+                  "checked: first/last index and index sum of every frame are those of the expected positions and the driver "
+                  "established equality of every delivered message with the generated one and its window is changed only while the session is paused; searches "
                   "and lookups are made on streams after quiescence (numeric parameters also with the classes 0, small, len-1, len, "
                   "len+1, u32::MAX, u32::MAX+1, u64::MAX/1000+1, 2^62, u64::MAX with saturating meaning; an index beyond the file may be "
                   "answered err: or with the stream length; malformed numbers are left to C15), strictly increasing message times "
@@ -187,12 +189,19 @@ def check(ctx):
                     paths["data_frames"] += 1
                 else:
                     paths["query_end_marker"] += 1
-            elif e["ev"] == "bin_sum":
+            elif e["ev"] in ("bin_sum", "txt_sum"):
                 hit = True
                 multi[e["id"]] += 1
-                paths["big_window_frames"] += 1
-                if e["n"] > 65536:
-                    paths["frame_over_64Ki_msgs"] += 1
+                if e["ev"] == "txt_sum":
+                    paths["text_stream_runs"] += 1
+                    if e["n"] >= 4096:
+                        paths["text_run_4096_or_more"] += 1
+                else:
+                    paths["big_window_frames"] += 1
+                    if e["n"] > 65536:
+                        paths["frame_over_64Ki_msgs"] += 1
+                    if e["n"] >= 4096 and combo != "none":
+                        paths["filtered_frame_4096_or_more"] += 1
             elif e["ev"] == "ok_search":
                 paths["search_page"] += 1
                 paths["search_on_" + combo] += 1
@@ -241,7 +250,7 @@ def check(ctx):
     ctx.extra["path_hits"] = dict(sorted(paths.items()))
     ctx.extra["kf_switches"] = sw
     needed = ["data_frames", "query_end_marker", "ok_change", "quiescent", "search_continued", "ok_bsearch", "created_during_parsing",
-              "window_empty", "window_in_several_frames", "big_window_frames", "extreme_sessions", "filters_with_disabled", "filters_with_marker",
+              "window_empty", "window_in_several_frames", "big_window_frames", "filtered_frame_4096_or_more", "text_stream_runs", "text_run_4096_or_more", "extreme_sessions", "filters_with_disabled", "filters_with_marker",
               "search_on_event", "lookup_on_event", "search_with_event", "lib_stream", "lib_query", "lib_grow"] + ["search_page_size_%d" % k for k in range(1, 6)]
     for kd in ("stream", "query"):      # every combination of filter kinds, for streams and for queries
         needed += ["filters_%s_%s" % (kd, cb) for cb in ("none", "pos", "neg", "event", "event+pos", "event+neg", "neg+pos", "event+neg+pos")]
